@@ -299,6 +299,11 @@ TOL_CELLS = {("SE_2_3", "lplus"), ("SE_2_3", "lminus"), ("SGal3", "lplus"), ("SG
              ("SE_2_3", "avg_w"), ("SE_2_3", "avg_fl"), ("SE_2_3", "avg_fr"),
              ("SGal3", "avg_w"), ("SGal3", "avg_fl"), ("SGal3", "avg_fr"),
              ("SGal3", "bracket"), ("SGal3", "inner"), ("SGal3", "sqwnorm"), ("SGal3", "wnorm")}
+# SGal3's rjacinv / ljacinv are `rjac().inverse()` / `ljac().inverse()`: Eigen's general LU inverse of a 10x10
+# matrix.  The model eliminates in the same order (unblocked partial pivoting) but solves the triangular
+# systems plainly, so these outputs (and log / rminus / lminus Jacobians built on them) agree to rounding:
+# |impl - model| <= max(1e-12 s, 1e-13 s^2), s = largest entry (the s^2 term covers the pole of J^-1 at 2 pi).
+LU_CELLS = {("SGal3", "rjacinv"), ("SGal3", "ljacinv"), ("SGal3", "log"), ("SGal3", "rminus"), ("SGal3", "lminus")}
 GEMM_OPS = {"lplus", "lminus", "bracket", "inner", "sqwnorm", "wnorm", "avg_w", "avg_fl", "avg_fr"}
 TOL_REL = 1e-12
 
@@ -317,16 +322,21 @@ def compare(impl, model, cell=None, tol_rel=None):
         return True, ""
     if cell is not None:
         cell = (cell[0], CANON.get(cell[1], cell[1]))
-        if cell[0].startswith("B:") and gen.GROUPS[cell[0]]["dof"] >= 8 and cell[1] in GEMM_OPS:
+        if cell[0].startswith("B:") and "SGal3" in cell[0] and ("SGal3", cell[1]) in LU_CELLS:
+            cell = ("SGal3", cell[1])         # the element's LU-based inverse Jacobians
+        elif cell[0].startswith("B:") and gen.GROUPS[cell[0]]["dof"] >= 8 and cell[1] in GEMM_OPS:
             cell = ("SE_2_3", "lplus")        # same treatment: rounding tolerance
-    if cell in TOL_CELLS:
+    if cell in TOL_CELLS or cell in LU_CELLS:
         ti, tm = impl.split(), model.split()
         if ti[:1] == tm[:1] == ["ok"] and len(ti) == len(tm):
             a = [gen.of_hex(x) for x in ti[1:]]
             b = [gen.of_hex(x) for x in tm[1:]]
             fin_a = [x for x in a if x == x and abs(x) != float("inf")]
             scale = max([1.0] + [abs(x) for x in fin_a])
-            ok = all((x == y) or (x != x and y != y) or abs(x - y) <= tol_rel * scale for x, y in zip(a, b))
+            tol = tol_rel * scale
+            if cell in LU_CELLS:
+                tol = max(tol, 0.1 * tol_rel * scale * scale)
+            ok = all((x == y) or (x != x and y != y) or abs(x - y) <= tol for x, y in zip(a, b))
             if ok:
                 return True, "tol"
     ti, tm = impl.split(), model.split()
